@@ -34,6 +34,16 @@ def c09_dry_gallon() -> bool:
     return abs(direct / chain - 1) > 1e-5                                   # 64 vs 32: the size depends on the route
 
 
+def c09_donkeypower() -> bool:
+    from measured.energy import Donkeypower
+    from measured.si import Watt
+    try:
+        (1 * Donkeypower).in_unit(Watt)
+        return False
+    except (ConversionNotFound, AssertionError):
+        return True
+
+
 def c01_as_ratio() -> bool:
     X = Speed.unit("c01 speed", "cxs")
     W = Time.unit("c01 time", "cxt")
@@ -198,7 +208,7 @@ def c20_race() -> bool:
     return results["A"] is not results["B"]
 
 
-CHECKS = [c09_metric_foot, c09_dry_gallon, c01_as_ratio, c01_root, c14_pow, c14_zero, c10_prefixed_target, c07_assert,
+CHECKS = [c09_metric_foot, c09_dry_gallon, c09_donkeypower, c01_as_ratio, c01_root, c14_pow, c14_zero, c10_prefixed_target, c07_assert,
           c08_stale_plan, c17_long_digits, c19_alias_leak, c19_deci, c19_deca_symbol, c19_prefix_rebind,
           c19_dimension_rebind, c19_half_built_dimension, c12_asymmetric_eq, c20_race]
 
